@@ -25,8 +25,9 @@ let res_str = function Some Success -> "ok" | Some Failed -> "failed" | Some Fai
 let run () = iter_lines (fun line ->
   let rest = String.sub line 2 (String.length line - 2) in
   match split_on '|' rest with
-  | [docs_s; ct; ex; json; entries; marks; leftover; late; compat_s] ->
+  | [docs_s; ct; ex; json; entries; marks; leftover; late; compat_s; dirs_s] ->
     let compat = (compat_s = "compat=1") in
+    if dirs_s = "dirs=1" then bump "documents given as directories (nested, next to files that are no documents)";
     let docs = List.mapi parse_doc (split_on ';' docs_s) in
     let cli_timeout = (let v = D_config.field ct in if v = "-" then None else Some (1000 * int_of_string v)) in
     let cli_unlimited = (cli_timeout = Some 0) in   (* --timeout-seconds 0: no limit, whatever the documents say *)
